@@ -515,3 +515,15 @@ def job_loop(prog, disp):
     if len(cands) != 1:
         raise AnalysisError(f'farm.dispatch: the loop over the released batch (_jobs) was not found ({len(cands)} candidates)')
     return cands[0]
+
+
+def inlined_helper(prog, cg, fn):
+    """fn is a helper that did not exist when the rules were written (not in the baseline list) and is called directly
+    from somewhere: the path rules see its body spliced into its callers (sa/inline.py), so it is not analysed on its
+    own.  A new function nobody calls directly (a callback, an entry point) is NOT a helper and is analysed as it is."""
+    from ..inline import baseline
+
+    if fn.qname in baseline():
+        return False
+    return any(e.kind == 'direct' and e.src.qname != fn.qname for e in cg.callers(fn.qname))
+
